@@ -110,6 +110,41 @@ SCRIPT = r'''
 (os/exit 0)
 '''
 
+CLOSE = r'''
+# a worker whose select was satisfied through another channel is later parked in an unrelated wait; closing the channel it abandoned
+# (from another thread) must not touch that wait
+(def rounds 24)
+(def b (ev/thread-chan 1)) (def c (ev/thread-chan 1)) (def ctl (ev/thread-chan 4)) (def res (ev/thread-chan 64))
+(defn worker [&]
+  (for i 0 rounds
+    (def a (ev/take ctl))
+    (def r1 (ev/select a b))
+    (ev/give res [:selected i])          # the closer waits for this: the select must be over before the channel is closed
+    (def r2 (case (% i 3)
+              0 (ev/take c)
+              1 (let [r (ev/select c)] (if (and (tuple? r) (= (r 0) :take)) (r 2) [:bad-select r]))
+              (do (def t0 (os/clock :monotonic)) (def s (ev/sleep 0.03)) (def el (- (os/clock :monotonic) t0))
+                (if (and (nil? s) (>= el 0.03)) (ev/take c) [:bad-sleep s el]))))
+    (ev/give res [i (and (tuple? r1) (= (r1 0) :take) (= (r1 2) [:wake i])) r2]))
+  :done)
+(def joined (ev/chan 1))
+(ev/spawn (ev/thread worker) (ev/give joined 1))
+(for i 0 rounds
+  (def a (ev/thread-chan))
+  (ev/give ctl a)
+  (ev/give b [:wake i])
+  (ev/take res)
+  (ev/sleep 0.004)
+  (ev/chan-close a)
+  (ev/sleep 0.004)
+  (ev/give c [:payload i])
+  (def [k ok1 r2] (ev/take res))
+  (print "C " k " " ok1 " " (string/format "%j" r2)))
+(ev/take joined)
+(print "CLOSE-DONE")
+(os/exit 0)
+'''
+
 LIFETIME = r'''
 # shared objects are released after the last reference is dropped and every thread has collected
 (def baseline ((verif/stats) :live-threaded))
@@ -153,6 +188,8 @@ def judge(ctx, params, d, res, files):
         if res.timed_out:
             ctx.violation("workload-hang:" + tag, "topology %s did not finish: a give or take never completed (lost wake-up or lost message); stderr %s" % (params, res.err[-300:]), files)
         else:
+            if b"failed to write event to self-pipe" in res.err:
+                tag = "selfpipe-full:" + tag
             ctx.violation("workload-aborted:" + tag, "rc=%s sig=%s stderr=%s" % (res.rc, res.sig, res.err.decode(errors="replace")[-300:]), files)
         return
     evs = parse_logs(d)
@@ -246,6 +283,8 @@ def run(ctx):
             if kind == "tsan":
                 # dedupe by stack pair; every distinct one is a violation
                 ctx.violation("race:" + sig, "ThreadSanitizer report in topology %s: %s" % (params, text[:600]), dict(files, **{"tsan.txt": text}))
+            elif "ABRT" in sig and "janet_ev_post_event" in text:
+                ctx.violation("workload-aborted:selfpipe-full:%s" % flavour, "janet aborted in janet_ev_post_event (self-pipe of the receiving thread full) in topology %s" % (params,), dict(files, **{"sanitizer.txt": text}))
             else:
                 ctx.violation("%s:%s" % (flavour, sig), "sanitizer report in topology %s: %s" % (params, text[:400]), dict(files, **{"sanitizer.txt": text}))
         r = judge(ctx, params, d, res, files)
@@ -260,6 +299,35 @@ def run(ctx):
 
     core.pmap(one, range(len(jobs)), jobs=8)
     ctx.extra["distinct_interleavings"] = len(sigs)
+
+    # closing a thread channel on which another thread has only an abandoned registration
+    def close_run(k):
+        flavour, exe, pseed = [("asan", asan, 11), ("tsan", tsan, 12), ("tsan", tsan, 13), ("plain", build.janet("plain"), 14)][k]
+        d = core.case_dir()
+        p3 = os.path.join(d, "close.janet")
+        open(p3, "w").write(CLOSE)
+        res = core.run([exe, p3], timeout=120, cwd=d, env={"JANET_VERIF_PERTURB": "%d:120" % pseed})
+        core.discard(res)
+        ctx.evals()
+        files = {"close.janet": CLOSE, "stdout.txt": res.out[-2000:], "stderr.txt": res.err[-2000:]}
+        for kind, sig, text in res.san:
+            ctx.violation("close:%s" % sig, text[:500], dict(files, **{"sanitizer.txt": text}))
+        out = res.out.decode(errors="replace")
+        if "CLOSE-DONE" not in out:
+            if res.timed_out:
+                ctx.violation("close:hang", "close scenario did not finish: last lines %r" % out[-200:], files)
+            elif not res.san:
+                ctx.violation("close:script-failed", "rc=%s sig=%s %s" % (res.rc, res.sig, res.err.decode(errors="replace")[-300:]), files)
+            return
+        for line in out.splitlines():
+            if line.startswith("C "):
+                _, i, ok1, r2 = line.split(" ", 3)
+                ctx.evals()
+                ctx.count("close_rounds")
+                ctx.nontriv(("close", flavour, i))
+                if ok1 != "true" or r2 != "(:payload %s)" % i:
+                    ctx.violation("close:wrong-result", "round %s: select result ok=%s, the later unrelated wait returned %s instead of (:payload %s)" % (i, ok1, r2, i), files)
+    core.pmap(close_run, range(4), jobs=4)
 
     # lifetime of shared abstracts
     for flavour, exe in (("asan", asan), ("tsan", tsan)):
